@@ -229,3 +229,5 @@ func mustParse(w *mc.Worker, text string) (numscript.ParseResult, bool) {
 	}
 	return pr, true
 }
+
+type parsedT = numscript.ParseResult
